@@ -56,6 +56,12 @@ class L:
         eng = object.__getattribute__(self, "_eng")
         return eng.deref(st, st.getfield(obj, name))
 
+    def seq(self, name, te):
+        """local `name` viewed as a symbolic sequence of element type te (also when still a concrete list)"""
+        st = object.__getattribute__(self, "_st")
+        eng = object.__getattribute__(self, "_eng")
+        return eng.B.as_sseq(eng, st, getattr(self, name), te)
+
 
 class BoundMethod:
     __slots__ = ("selfv", "func")
@@ -169,12 +175,14 @@ class Engine:
             stack.pop()
         for j in range(k, len(ids)):
             sol.push()
-            sol.add(st.pc[j])
+            if not _has_quantifier(st.pc[j]):
+                sol.add(st.pc[j])   # quantified facts are dropped: over-approximates feasibility (sound)
             stack.append(ids[j])
         if extra is None:
             return sol.check() != z3.unsat
         sol.push()
-        sol.add(extra)
+        if not _has_quantifier(extra):
+            sol.add(extra)
         r = sol.check()
         sol.pop()
         self.nfeas += 1
@@ -583,7 +591,15 @@ class Engine:
         seen = set(map(id, sa.obls))
         m.obls = sa.obls + tuple(o for o in sb.obls if id(o) not in seen)
         m.tags = tuple(dict.fromkeys(sa.tags + sb.tags))
-        m.ghost = dict(sa.ghost)
+        gh = {}
+        for k in set(sa.ghost) | set(sb.ghost):
+            if k not in sa.ghost or k not in sb.ghost:
+                return None
+            v = self.merge_value(g, sa.ghost[k], sb.ghost[k])
+            if v is None:
+                return None
+            gh[k] = v
+        m.ghost = gh
         return m
 
     def st_Assign(self, node, st):
@@ -1694,6 +1710,34 @@ class StarSeq:
 
     def __init__(self, seq):
         self.seq = seq
+
+
+_qcache = {}
+
+
+def _has_quantifier(e):
+    i = e.get_id()
+    r = _qcache.get(i)
+    if r is not None:
+        return r
+    seen, stack, found = set(), [e], False
+    while stack:
+        x = stack.pop()
+        xi = x.get_id()
+        if xi in seen:
+            continue
+        seen.add(xi)
+        if z3.is_quantifier(x) and not x.is_lambda():
+            found = True
+            break
+        if z3.is_quantifier(x):
+            stack.append(x.body())
+        else:
+            stack.extend(x.children())
+    if len(_qcache) > 200000:
+        _qcache.clear()
+    _qcache[i] = found
+    return found
 
 
 def _mergeable_body(stmts):
